@@ -477,6 +477,11 @@ class Interp(seqdom.Interp):
                     self.err(node, f"`{astq.src(node, 60)}` correlates records of different setups")
                 return Tup([Freq(q), Mat(a.groups, b.groups, ("S", s, tuple(x[1] for x in a.groups), tuple(x[1] for x in b.groups)))])
             return Tup([Freq(q), Mat((), (), ("opq", "estimator called on unrecognised records"))])
+        if fn in ("numpy.asarray", "numpy.array", "numpy.atleast_2d", "numpy.asanyarray", "numpy.ascontiguousarray", "numpy.asfarray", "numpy.copy") and args \
+                and isinstance(args[0], Rec):
+            return args[0]                  # the same records as an array (type / layout conversions keep the channels)
+        if isinstance(node.func, ast.Attribute) and node.func.attr in ("astype", "copy") and isinstance(self.ev(node.func.value, env), Rec):
+            return self.ev(node.func.value, env)
         if fn in ("numpy.vstack", "numpy.hstack", "numpy.concatenate", "numpy.row_stack", "numpy.column_stack") and args:
             a0 = args[0]
             axis = 0 if fn in ("numpy.vstack", "numpy.row_stack") else 1 if fn in ("numpy.hstack", "numpy.column_stack") else None
